@@ -398,3 +398,229 @@ Proof. intros Hc Hcl Hbl off. pose proof Hc as [Htl Hi Hwf _].
     unfold term_scan. rewrite scan_loop_eq.
     assert (off <? Z.min (wrap32 (off + blimit)) (2 ^ bits) = false) by lia. rewrite H.
     replace (off - off) with 0 by lia. assert (off >? off = false) by lia. rewrite H0. reflexivity. Qed.
+
+(* ---- one step of a history ---- *)
+Definition static_eq (im im' : image) : Prop :=
+  im_closed im' = im_closed im /\ im_final im' = im_final im /\ im_session im' = im_session im.
+
+Lemma static_eq_refl im : static_eq im im. Proof. repeat split. Qed.
+Lemma static_eq_set_pos im p : static_eq im (set_pos im p). Proof. repeat split. Qed.
+Lemma static_eq_after im ws : static_eq im (after_writes im ws). Proof. repeat split. Qed.
+
+Lemma controlled_static l im limit sc r : image_controlled_poll l im limit sc = Ok r ->
+  let '(_, _, _, im') := r in static_eq im im'.
+Proof. unfold image_controlled_poll. destruct (im_closed im).
+  - intros H; inversion H; subst. apply static_eq_refl.
+  - destruct (sel l (im_pos im)) as [[fs off]| | | |]; cbn [bind]; try discriminate.
+    intros H; inversion H; subst. unfold cfinish.
+    destruct (cloop (l_tlen l) limit fs sc off 0 (im_pos im) off) as [[[[[a b] c] d] e] g]. apply static_eq_after. Qed.
+
+Lemma bcontrolled_static l im B limit sc r : image_bounded_controlled_poll l im B limit sc = Ok r ->
+  let '(_, _, _, im') := r in static_eq im im'.
+Proof. unfold image_bounded_controlled_poll. destruct (im_closed im).
+  - intros H; inversion H; subst. apply static_eq_refl.
+  - destruct (sel l (im_pos im)) as [[fs off]| | | |]; cbn [bind]; try discriminate.
+    intros H; inversion H; subst. unfold cfinish.
+    destruct (cloop (limit_offset (l_tlen l) B (im_pos im) off) limit fs sc off 0 (im_pos im) off) as [[[[[a b] c] d] e] g].
+    apply static_eq_after. Qed.
+
+Lemma peek_static l im ip lp sc r : image_controlled_peek l im ip lp sc = Ok r ->
+  let '(_, _, _, im') := r in im' = im.
+Proof. unfold image_controlled_peek. destruct (im_closed im); [intros H; inversion H; reflexivity|].
+  destruct (negb (validate_position (l_tlen l) (im_pos im) ip)); [intros H; inversion H; reflexivity|].
+  destruct (sel l ip) as [[fs off]| | | |]; cbn [bind]; try discriminate.
+  destruct (ploop (l_tlen l) lp fs sc off ip off ip) as [rp ds]. intros H; inversion H; reflexivity. Qed.
+
+Lemma block_static m l im bl r : image_block_poll m l im bl = Ok r ->
+  let '(_, _, _, im') := r in static_eq im im'.
+Proof. unfold image_block_poll. destruct (im_closed im); [intros H; inversion H; apply static_eq_refl|].
+  destruct (sel l (im_pos im)) as [[fs off]| | | |]; cbn [bind]; try discriminate.
+  destruct (add32 m off bl); cbn [bind]; try discriminate.
+  destruct (term_scan fs off (Z.min a (l_tlen l)) >? off); intros H; inversion H; subst;
+    [apply static_eq_after|apply static_eq_refl]. Qed.
+
+Lemma part_mk_log bits init session segs i : 0 <= i < 3 -> part (mk_log bits init session segs) i = part_of segs i.
+Proof. intros H. unfold part, mk_log. cbn [l_p0 l_p1 l_p2].
+  destruct (i =? 0) eqn:E0; [replace i with 0 by lia; reflexivity|].
+  destruct (i =? 1) eqn:E1; [replace i with 1 by lia; reflexivity|]. replace i with 2 by lia. reflexivity. Qed.
+
+Lemma ctx_of_case bits init session segs pos :
+  wf_call bits init pos (frames_at bits segs pos) = true ->
+  ctx bits init pos (mk_log bits init session segs) (frames_at bits segs pos).
+Proof. intros H. constructor; try reflexivity; try assumption.
+  unfold frames_at. rewrite part_mk_log; [reflexivity|]. apply Z.mod_pos_bound. lia. Qed.
+
+(* the oracle's knowledge agrees with the model's state *)
+Definition rel (session : Z) (st : ostate) (ms : list seg * image) : Prop :=
+  st = (fst ms, im_pos (snd ms), im_closed (snd ms), im_final (snd ms)) /\ im_session (snd ms) = session.
+
+Definition op_ok (o : cop) : Prop := match o with CBlock bl => in_i32 bl = true | _ => True end.
+
+Lemma judge_idle_intro v pos : out_eqb v v = true -> judge_idle v pos (v, [], [], pos) = true.
+Proof. intros H. unfold judge_idle. rewrite H, Z.eqb_refl. reflexivity. Qed.
+
+Lemma rel_next session segs im im' o ob p c f :
+  p = im_pos im -> c = im_closed im -> f = im_final im ->
+  im_session im = session -> static_eq im im' -> ctr_of ob = im_pos im' ->
+  match o with CGrow _ _ | CClose => False | _ => True end ->
+  rel session (onext (segs, p, c, f) o ob) (segs, im').
+Proof. intros -> -> -> Hs (A & B & C) Hc Ho. unfold rel, onext. cbn [fst snd]. rewrite Hc, A, B, C.
+  destruct o; try destruct Ho; split; (reflexivity || assumption). Qed.
+
+Theorem step_judged m bits init session st ms o :
+  16 <= bits <= 30 -> rel session st ms -> op_ok o ->
+  let '(ob, ms') := step m bits init session ms o in
+  judge_op bits init session st o ob = true /\ rel session (onext st o ob) ms'.
+Proof. intros Hb [Hst Hse] Hok. destruct ms as [segs im]. cbn [fst snd] in *. subst st.
+  set (l := mk_log bits init session segs).
+  set (pos := im_pos im). set (fs := frames_at bits segs pos).
+  assert (Hctx : wf_call bits init pos fs = true -> ctx bits init pos l fs) by (apply ctx_of_case).
+  destruct o; cbn [step]; fold l.
+  - (* poll *)
+    destruct (im_closed im) eqn:Hcl.
+    + unfold image_poll. rewrite Hcl. cbn [obs_of map]. split.
+      * cbn [judge_op]. apply judge_idle_intro. reflexivity.
+      * apply (rel_next session segs im); auto using static_eq_refl.
+    + destruct (wf_call bits init pos fs) eqn:Hwf.
+      * destruct (poll_judged m l bits init im fs limit (Hctx eq_refl) Hcl) as ([[[ret ds] ws] im'] & He & Hj).
+        rewrite He. pose proof He as He'. rewrite poll_as_controlled in He'. apply controlled_static in He'.
+        cbn [obs_of]. split.
+        -- cbn [judge_op]. fold fs. rewrite Hwf. cbn [negb]. exact Hj.
+        -- apply (rel_next session segs im); auto.
+      * destruct (image_poll l im limit) as [[[[ret ds] ws] im']| | | |] eqn:He; cbn [obs_of].
+        1:{ split; [cbn [judge_op]; fold fs; rewrite Hwf; reflexivity|].
+            rewrite poll_as_controlled in He. apply controlled_static in He. apply (rel_next session segs im); auto. }
+        all: split; [cbn [judge_op]; fold fs; rewrite Hwf; reflexivity|apply (rel_next session segs im); auto using static_eq_refl].
+  - (* bounded_poll *)
+    destruct (im_closed im) eqn:Hcl.
+    + unfold image_bounded_poll. rewrite Hcl. cbn [obs_of map]. split.
+      * cbn [judge_op]. apply judge_idle_intro. reflexivity.
+      * apply (rel_next session segs im); auto using static_eq_refl.
+    + destruct (wf_call bits init pos fs) eqn:Hwf.
+      * destruct (bounded_poll_judged m l bits init im fs (resolve pos bound) limit (Hctx eq_refl) Hcl) as ([[[ret ds] ws] im'] & He & Hj).
+        fold pos. rewrite He. pose proof He as He'. rewrite bounded_as_controlled in He'. apply bcontrolled_static in He'.
+        cbn [obs_of]. split.
+        -- cbn [judge_op]. fold fs. rewrite Hwf. cbn [negb]. exact Hj.
+        -- apply (rel_next session segs im); auto.
+      * fold pos. destruct (image_bounded_poll l im (resolve pos bound) limit) as [[[[ret ds] ws] im']| | | |] eqn:He; cbn [obs_of].
+        1:{ split; [cbn [judge_op]; fold fs; rewrite Hwf; reflexivity|].
+            rewrite bounded_as_controlled in He. apply bcontrolled_static in He. apply (rel_next session segs im); auto. }
+        all: split; [cbn [judge_op]; fold fs; rewrite Hwf; reflexivity|apply (rel_next session segs im); auto using static_eq_refl].
+  - (* controlled_poll *)
+    destruct (im_closed im) eqn:Hcl.
+    + unfold image_controlled_poll. rewrite Hcl. cbn [obs_of map]. split.
+      * cbn [judge_op]. apply judge_idle_intro. reflexivity.
+      * apply (rel_next session segs im); auto using static_eq_refl.
+    + destruct (wf_call bits init pos fs) eqn:Hwf.
+      * destruct (controlled_poll_judged m l bits init im fs limit sc (Hctx eq_refl) Hcl) as ([[[ret ds] ws] im'] & He & Hj).
+        rewrite He. pose proof He as He'. apply controlled_static in He'.
+        cbn [obs_of]. split.
+        -- cbn [judge_op]. fold fs. rewrite Hwf. cbn [negb]. exact Hj.
+        -- apply (rel_next session segs im); auto.
+      * destruct (image_controlled_poll l im limit sc) as [[[[ret ds] ws] im']| | | |] eqn:He; cbn [obs_of].
+        1:{ split; [cbn [judge_op]; fold fs; rewrite Hwf; reflexivity|].
+            apply controlled_static in He. apply (rel_next session segs im); auto. }
+        all: split; [cbn [judge_op]; fold fs; rewrite Hwf; reflexivity|apply (rel_next session segs im); auto using static_eq_refl].
+  - (* bounded_controlled_poll *)
+    destruct (im_closed im) eqn:Hcl.
+    + unfold image_bounded_controlled_poll. rewrite Hcl. cbn [obs_of map]. split.
+      * cbn [judge_op]. apply judge_idle_intro. reflexivity.
+      * apply (rel_next session segs im); auto using static_eq_refl.
+    + destruct (wf_call bits init pos fs) eqn:Hwf.
+      * destruct (bounded_controlled_poll_judged m l bits init im fs (resolve pos bound) limit sc (Hctx eq_refl) Hcl) as ([[[ret ds] ws] im'] & He & Hj).
+        fold pos. rewrite He. pose proof He as He'. apply bcontrolled_static in He'.
+        cbn [obs_of]. split.
+        -- cbn [judge_op]. fold fs. rewrite Hwf. cbn [negb]. exact Hj.
+        -- apply (rel_next session segs im); auto.
+      * fold pos. destruct (image_bounded_controlled_poll l im (resolve pos bound) limit sc) as [[[[ret ds] ws] im']| | | |] eqn:He; cbn [obs_of].
+        1:{ split; [cbn [judge_op]; fold fs; rewrite Hwf; reflexivity|].
+            apply bcontrolled_static in He. apply (rel_next session segs im); auto. }
+        all: split; [cbn [judge_op]; fold fs; rewrite Hwf; reflexivity|apply (rel_next session segs im); auto using static_eq_refl].
+  - (* controlled_peek *)
+    fold pos. set (ip := resolve pos ipos). set (lp := resolve pos limitpos).
+    destruct (im_closed im) eqn:Hcl.
+    + unfold image_controlled_peek. rewrite Hcl. cbn [obs_of map]. split.
+      * cbn [judge_op]. fold ip. apply judge_idle_intro. apply out_eqb_refl_ok.
+      * apply (rel_next session segs im); auto using static_eq_refl.
+    + destruct (valid_new_position (2 ^ bits) pos ip) eqn:Hv.
+      * destruct (wf_call bits init ip (frames_at bits segs ip)) eqn:Hwf.
+        -- destruct (controlled_peek_judged m l bits init im (frames_at bits segs ip) ip lp sc
+                       (ctx_of_case _ _ session _ _ Hwf) Hcl Hv) as ([[[ret ds] ws] im'] & He & Hj).
+           rewrite He. pose proof He as He'. apply peek_static in He'. subst im'. cbn [obs_of]. split.
+           ++ cbn [judge_op]. fold ip lp. rewrite Hv, Hwf. cbn [negb]. exact Hj.
+           ++ apply (rel_next session segs im); auto using static_eq_refl.
+        -- destruct (image_controlled_peek l im ip lp sc) as [[[[ret ds] ws] im']| | | |] eqn:He; cbn [obs_of].
+           1:{ apply peek_static in He. subst im'.
+               split; [cbn [judge_op]; fold ip lp; rewrite Hv, Hwf; reflexivity|apply (rel_next session segs im); auto using static_eq_refl]. }
+           all: split; [cbn [judge_op]; fold ip lp; rewrite Hv, Hwf; reflexivity|apply (rel_next session segs im); auto using static_eq_refl].
+      * unfold image_controlled_peek. rewrite Hcl. change (l_tlen l) with (2 ^ bits). rewrite validate_spec by lia.
+        fold pos. rewrite Hv. cbn [negb obs_of map]. split.
+        -- cbn [judge_op]. fold ip. rewrite Hv. cbn [negb]. apply judge_idle_intro. reflexivity.
+        -- apply (rel_next session segs im); auto using static_eq_refl.
+  - (* block_poll *)
+    destruct (im_closed im) eqn:Hcl.
+    + unfold image_block_poll. rewrite Hcl. cbn [map]. split.
+      * cbn [judge_op]. apply judge_idle_intro. reflexivity.
+      * apply (rel_next session segs im); auto using static_eq_refl.
+    + destruct (wf_call bits init pos fs) eqn:Hwf.
+      * pose proof (block_poll_judged m l bits init im fs blimit (Hctx eq_refl) Hcl Hok) as Hbp. cbv zeta in Hbp.
+        fold pos in Hbp. destruct (in_i32 (pos mod 2 ^ bits + blimit)) eqn:Ei.
+        -- destruct Hbp as (ret & ds & ws & im' & He & Hj). rewrite He. pose proof He as He'. apply block_static in He'.
+           split.
+           ++ cbn [judge_op]. fold fs. rewrite Hwf. cbn [negb]. unfold block_excluded. rewrite Ei. cbn [negb].
+              rewrite Hse in Hj. exact Hj.
+           ++ apply (rel_next session segs im); auto.
+        -- destruct m; rewrite Hbp.
+           ++ split; [|apply (rel_next session segs im); auto using static_eq_refl].
+              cbn [judge_op]. fold fs. rewrite Hwf. cbn [negb]. unfold block_excluded. rewrite Ei. cbn [negb].
+              rewrite judge_idle_intro by reflexivity. reflexivity.
+           ++ cbn [map]. split; [|apply (rel_next session segs im); auto using static_eq_refl].
+              cbn [judge_op]. fold fs. rewrite Hwf. cbn [negb]. unfold block_excluded. rewrite Ei. cbn [negb].
+              apply orb_true_iff. right. unfold judge_block. apply (any_upto_intro _ _ 0%nat ltac:(lia)).
+              unfold judge_block_run, consumed. cbn [firstn span_sum out_eqb badm andb]. rewrite Z.eqb_refl.
+              unfold writes_ok. cbn [nondecr last forallb]. rewrite Z.add_0_r, !Z.eqb_refl. reflexivity.
+      * destruct (image_block_poll m l im blimit) as [[[[ret ds] ws] im']| | | |] eqn:He.
+        1:{ split; [cbn [judge_op]; fold fs; rewrite Hwf; reflexivity|].
+            apply block_static in He. apply (rel_next session segs im); auto. }
+        all: split; [cbn [judge_op]; fold fs; rewrite Hwf; reflexivity|apply (rel_next session segs im); auto using static_eq_refl].
+  - (* set_position *)
+    fold pos. set (q := resolve pos p). unfold image_set_position.
+    destruct (im_closed im) eqn:Hcl.
+    + cbn [obs_of map]. split; [cbn [judge_op]; apply judge_idle_intro; reflexivity|apply (rel_next session segs im); auto using static_eq_refl].
+    + change (l_tlen l) with (2 ^ bits). rewrite validate_spec by lia. fold pos.
+      destruct (valid_new_position (2 ^ bits) pos q) eqn:Hv; cbn [obs_of map].
+      * split.
+        -- cbn [judge_op]. fold q. rewrite Hv. cbn [out_eqb last nondecr set_pos im_pos]. rewrite !Z.eqb_refl.
+           unfold valid_new_position in Hv. assert (pos <=? q = true) by lia. rewrite H. reflexivity.
+        -- apply (rel_next session segs im); auto using static_eq_set_pos.
+      * split; [|apply (rel_next session segs im); auto using static_eq_refl].
+        cbn [judge_op]. fold q. rewrite Hv. apply judge_idle_intro. reflexivity.
+  - (* close *)
+    split; [cbn [judge_op]; apply judge_idle_intro; reflexivity|].
+    unfold rel, onext, image_close. cbn [fst snd ctr_of]. destruct (im_closed im) eqn:Hcl; cbn [im_pos im_closed im_final im_session].
+    + rewrite Hcl. split; [reflexivity|assumption].
+    + split; [reflexivity|assumption].
+  - (* grow *)
+    split; [cbn [judge_op]; apply judge_idle_intro; reflexivity|].
+    unfold rel, onext. cbn [fst snd ctr_of]. split; [reflexivity|assumption].
+  - (* position *)
+    split.
+    + cbn [judge_op]. unfold image_position. fold pos. apply judge_idle_intro. apply out_eqb_refl_ok.
+    + apply (rel_next session segs im); auto using static_eq_refl.
+Qed.
+
+(* ---- a whole history ---- *)
+Theorem run_judged m bits init session : forall ops st ms,
+  16 <= bits <= 30 -> rel session st ms -> Forall op_ok ops ->
+  judge_all bits init session st ops (run m bits init session ms ops) = true.
+Proof. induction ops as [|o r IH]; intros st ms Hb Hrel Hok; [reflexivity|].
+  inversion Hok as [|? ? Ho Hr]; subst. cbn [run].
+  pose proof (step_judged m bits init session st ms o Hb Hrel Ho) as Hs.
+  destruct (step m bits init session ms o) as [ob ms']. destruct Hs as [Hj Hrel'].
+  cbn [judge_all]. rewrite Hj. cbn [andb]. apply IH; assumption. Qed.
+
+Theorem case_judged m bits init session pos0 segs ops :
+  16 <= bits <= 30 -> Forall op_ok ops ->
+  holds_case bits init session pos0 segs ops (run_case m bits init session pos0 segs ops) = true.
+Proof. intros Hb Hok. unfold holds_case, run_case. apply run_judged; try assumption.
+  split; reflexivity. Qed.
